@@ -10,9 +10,9 @@
 EXTENDS BlobPut
 
 Decls == {"none", "right", "wrongdig", "sizeplus", "sizeminus", "digonly", "sizeonly",
-          "sizeonlyplus", "sizeonlyminus", "prefix"}
+          "sizeonlyplus", "sizeonlyminus", "prefix", "baddig"}
 Minus == {"sizeminus", "sizeonlyminus", "prefix"}          \* declared size = length - 1, kept > 0
-NoDigest == {"none", "sizeonly", "sizeonlyplus", "sizeonlyminus"}
+NoDigest == {"none", "sizeonly", "sizeonlyplus", "sizeonlyminus", "baddig"}   \* nothing can exist under it
 MinsQ == {<<0, FALSE>>, <<2, FALSE>>, <<2, TRUE>>}
 MinsT == {<<0, FALSE>>, <<2, FALSE>>, <<2, TRUE>>, <<3, FALSE>>, <<3, TRUE>>}
 
@@ -42,6 +42,8 @@ FaultConfs == Reg(0..5, 1..3, {-1, 2}, {<<0, FALSE>>, <<2, TRUE>>}, BOOLEAN, {"n
 LiveConfs == Reg(0..4, 1..3, {-1, 2}, {<<0, FALSE>>, <<2, TRUE>>}, {TRUE}, {"none", "right", "wrongdig"}, {"else"}, {"query"})
 \* S13: a destination that enforces its minimum and nevertheless accepts partially
 S13Confs == {[c EXCEPT !.part = TRUE] : c \in Reg(0..6, {3}, {-1}, {<<2, TRUE>>}, {TRUE}, {"none"}, {"else"}, {"query"})}
+\* a declared digest that does not validate is ignored (finding C05-2)
+BadDigConfs == Reg({2}, {1}, {-1}, {<<0, FALSE>>}, {TRUE}, {"baddig"}, {"else"}, {"query"}) \cup Oci({2}, {"baddig"})
 \* the anonymous mount short cut with a descriptor the stream does not match
 MountConfs == Reg({2}, {1}, {-1}, {<<0, FALSE>>}, {TRUE}, {"wrongdig", "sizeplus"}, {"else", "repo"}, {"query"})
 =============================================================================
